@@ -79,20 +79,61 @@ type rangeInfo struct {
 // rangeOfIndex recognises idx as the index of a rotated rangeindex loop and
 // returns the ranged slice (from the element load &S[idx] or the len bound).
 func rangeOfIndex(idx ssa.Value) (ssa.Value, bool) {
-	bo, ok := idx.(*ssa.BinOp)
-	if !ok || bo.Op != token.ADD {
-		return nil, false
-	}
-	ph, ok := bo.X.(*ssa.Phi)
-	if !ok || ph.Comment != "rangeindex" {
-		return nil, false
-	}
-	// bound: idx < len(S)
-	for _, r := range kit.Referrers(bo) {
-		if cmp, ok := r.(*ssa.BinOp); ok && cmp.Op == token.LSS && cmp.X == ssa.Value(bo) {
-			if s := kit.LenOf(cmp.Y); s != nil {
-				return s, true
+	if bo, ok := idx.(*ssa.BinOp); ok && bo.Op == token.ADD {
+		if ph, ok := bo.X.(*ssa.Phi); ok && ph.Comment == "rangeindex" {
+			// bound: idx < len(S)
+			for _, r := range kit.Referrers(bo) {
+				if cmp, ok := r.(*ssa.BinOp); ok && cmp.Op == token.LSS && cmp.X == ssa.Value(bo) {
+					if s := kit.LenOf(cmp.Y); s != nil {
+						return s, true
+					}
+				}
 			}
+			return nil, false
+		}
+	}
+	// the hand-written form: for i := 0; i < len(S) (or n := len(S); i < n); i++
+	ph, ok := kit.Strip(idx).(*ssa.Phi)
+	if !ok {
+		return nil, false
+	}
+	if b, isB := ph.Type().Underlying().(*types.Basic); !isB || b.Info()&types.IsInteger == 0 {
+		return nil, false
+	}
+	zero, inc := false, false
+	for _, e := range ph.Edges {
+		if k, ok := kit.ConstInt(e); ok && k == 0 {
+			zero = true
+			continue
+		}
+		if bo, ok := e.(*ssa.BinOp); ok && bo.Op == token.ADD && bo.X == ssa.Value(ph) {
+			if k, ok := kit.ConstInt(bo.Y); ok && k == 1 {
+				inc = true
+				continue
+			}
+		}
+		return nil, false // some other value flows into the counter
+	}
+	if !zero || !inc {
+		return nil, false
+	}
+	// the loop test i < B in the phi's block (loop header), leaving the loop on false
+	for _, r := range kit.Referrers(ph) {
+		cmp, ok := r.(*ssa.BinOp)
+		if !ok || cmp.Op != token.LSS || cmp.X != ssa.Value(ph) || cmp.Block() != ph.Block() {
+			continue
+		}
+		isLoopTest := false
+		for _, rr := range kit.Referrers(cmp) {
+			if iff, ok := rr.(*ssa.If); ok && iff.Block() == ph.Block() {
+				isLoopTest = true
+			}
+		}
+		if !isLoopTest {
+			continue
+		}
+		if s := kit.LenOf(kit.Root(cmp.Y)); s != nil {
+			return s, true
 		}
 	}
 	return nil, false
